@@ -187,9 +187,12 @@ def main(argv=None):
     harness_err = False
     for ob in obs:
         r = results[ob.id]
-        for e in r.get('errors', []):
+        errs = r.get('errors', [])
+        for e in errs[:3]:
             print(f"HARNESS-ERROR {ob.id}: {e}")
             harness_err = True
+        if len(errs) > 3:
+            print(f"HARNESS-ERROR {ob.id}: ... {len(errs) - 3} more")
         for u in r.get('undecided', []):
             print(f"UNDECIDED {ob.id}: {u}")
     if rc == 0 and harness_err:
